@@ -11,7 +11,8 @@ def natS (j : Json) : Nat := (str j).toNat?.getD 0
 
 def implOf (j : Json) : Impl :=
   { unionDictNone := boolF j "unionDictNone", enumAssert := boolF j "enumAssert",
-    cfgNoneOk := boolF j "cfgNoneOk", deepValidate := boolF j "deepValidate", enumNameFails := boolF j "enumNameFails" }
+    cfgNoneOk := boolF j "cfgNoneOk", deepValidate := boolF j "deepValidate", enumNameFails := boolF j "enumNameFails",
+    resetOnFail := boolF j "resetOnFail" }
 
 partial def tyOf (j : Json) : Ty :=
   match strF j "k" with
